@@ -118,6 +118,18 @@ def count_range(body, blocks, start=0):
     return (r[0], math.inf if inf else r[1])
 
 
+def once_per_region(body, site_bb, start, stop):
+    """`site_bb` is executed exactly once on every path from `start` that reaches a `stop` block (the next loop iteration): every such path passes it (infeasible
+    Ok/Err combinations pruned, see Body.reach_ps) and it does not lie on a cycle that avoids the stop blocks."""
+    stop = set(stop)
+    if not body.all_paths_pass(start, [site_bb], dst_set=stop):
+        return False
+    again = set()
+    for s_ in body.succs(site_bb):
+        again |= body.reach(s_, avoid_blocks=stop)
+    return site_bb not in again
+
+
 def count_range_region(body, blocks, start, stop, returns_count=False):
     """(min, max) visits of `blocks` over all paths from start to a block in `stop` (or a return), never passing through a stop block.
     Used for "once per loop iteration": stop = the loop header."""
